@@ -7,6 +7,8 @@ import (
 	"runtime/debug"
 	"time"
 
+	d128 "github.com/woodsbury/decimal128"
+
 	"verif/harness/ref"
 )
 
@@ -36,6 +38,21 @@ const historyEvery = 16
 
 type histArgs[A any] struct {
 	Seq []A
+	// Mode 1..6 evaluates every element under that one rounding mode only (index+1 into ref.Modes) in the checks
+	// that otherwise loop over all six: a sequence x-y, y-x only collides in a cache keyed by mode when both calls
+	// use the same mode back to back. 0: every element under all modes, as in an ordinary evaluation.
+	Mode int `json:",omitempty"`
+}
+
+// walkMode is the rounding mode a single-mode history walk is confined to (-1: none).
+var walkMode = -1
+
+// loopModes is what a check iterates over where the property says "every rounding mode".
+func loopModes() []d128.RoundingMode {
+	if walkMode >= 0 {
+		return ref.Modes[walkMode : walkMode+1]
+	}
+	return ref.Modes
 }
 
 func registerHistory[A any](c *Checker[A]) {
@@ -63,9 +80,13 @@ func (c *Checker[A]) evalHistory(a histArgs[A]) (v *Violation) {
 			v = violf("panic: %v\n%s", r, trimStack(debug.Stack()))
 		}
 	}()
+	if a.Mode >= 1 && a.Mode <= len(ref.Modes) {
+		walkMode = a.Mode - 1
+		defer func() { walkMode = -1 }()
+	}
 	for i, x := range a.Seq {
 		if v := c.fn(x); v != nil {
-			if i == 0 {
+			if i == 0 && a.Mode == 0 {
 				return v
 			}
 			return violf("call %d of a sequence of related calls (the same check evaluated on siblings of one argument tuple): %s", i+1, v.Msg)
@@ -165,6 +186,15 @@ func siblings[A any](a A, allow map[string]bool) []A {
 				emit(func(v reflect.Value) { v.Field(i).SetString(s[:len(s)/2]) })
 			}
 			if len(s) > 0 && len(s) < 1<<16 {
+				// the same text with another sign
+				switch s[0] {
+				case '-':
+					emit(func(v reflect.Value) { v.Field(i).SetString("+" + s[1:]) })
+				case '+':
+					emit(func(v reflect.Value) { v.Field(i).SetString("-" + s[1:]) })
+				default:
+					emit(func(v reflect.Value) { v.Field(i).SetString("-" + s) })
+				}
 				emit(func(v reflect.Value) { v.Field(i).SetString(s + "0") })
 				emit(func(v reflect.Value) { v.Field(i).SetString(s + s[len(s)-1:]) })
 				b := []byte(s)
@@ -235,4 +265,16 @@ func dSiblings(d D) []D {
 		out = append(out, DFin(n.Neg, q, n.Exp+1))
 	}
 	return out
+}
+
+// primedUnderAnotherMode makes the same call under a different DefaultRoundingMode first (for half of the cases,
+// chosen by h) and discards the result: a conversion that rounds by DefaultRoundingMode must sample it at every
+// call, so an earlier call under another mode may not change what the call under test returns (a memo keyed by the
+// argument alone, or a mode remembered at first use, would).
+func primedUnderAnotherMode(h uint64, call func()) {
+	h = splitmix(h)
+	if h&1 == 0 {
+		return
+	}
+	withDefaultMode(ref.Modes[1+int(h>>1)%5], call)
 }
